@@ -234,6 +234,21 @@ func vSameUpToProfile(got, orig reflect.Value) {
 				}
 			}
 			vAssert(ok, "C07.values.array-up-to-profile-length")
+			if ok && a.Len() > n && b.Len() > 0 {
+				// beyond the elements the input had: invalid padding only
+				bt := pf.t.BaseType()
+				inv := vInvalidBits(bt)
+				pad := true
+				for j := n; j < a.Len(); j++ {
+					switch e := a.Index(j); e.Kind() {
+					case reflect.Uint8, reflect.Uint16, reflect.Uint32, reflect.Uint64:
+						pad = pad && e.Uint() == inv
+					case reflect.Int8, reflect.Int16, reflect.Int32, reflect.Int64:
+						pad = pad && e.Int() == vSext(inv, bt.Size())
+					}
+				}
+				vAssert(pad, "C07.values.array-rest-is-invalid-padding")
+			}
 		case reflect.String:
 			sa, sb := a.String(), b.String()
 			ok := len(sa) <= len(sb) && sb[:len(sa)] == sa
